@@ -31,6 +31,7 @@ pub mod c13;
 pub mod c08;
 pub mod c09;
 pub mod c14;
+pub mod c15;
 pub mod replay;
 
 pub use engine::chooser::{choose, deviate};
